@@ -385,7 +385,7 @@ class FmtStr:
                 new_components.extend([head] + new_fs.chunks)
                 inserted = True
 
-                if bfs_start < end < bfs_end:
+                if end < bfs_end:
                     tail = Chunk(bfs.s[end - bfs_start :], atts=bfs.atts)
                     new_components.append(tail)
 
